@@ -334,6 +334,113 @@ fn wide_case(seed: u64, idx: u64) -> CaseOut {
     co
 }
 
+/// Schedule lane: `{wide_bar}` is laid out for the terminal the frame is written to. While one thread ticks
+/// a member bar, the MultiProgress is given another terminal of a different width by a second thread -
+/// the switch is injected (delay hook) right after the drawing thread releases a read lock or before it
+/// requests the next lock, i.e. at every point of a draw where the MultiProgress state is not held.
+/// Every bar line any terminal receives must be exactly as wide as THAT terminal (the rest always fits).
+fn retarget_race_case(seed: u64, idx: u64) -> CaseOut {
+    use indicatif::verif_hooks as vh;
+    use std::sync::atomic::{AtomicBool, AtomicU64, Ordering::SeqCst};
+    use std::sync::{mpsc, Arc};
+    let mut rng = Rng::derive(seed, 1313, idx);
+    let replay = format!("r{seed}:{idx}");
+    let (w1, w2) = (rng.range(30, 90) as u16, rng.range(12, 29) as u16);
+    let (first, second) = if rng.chance(1, 2) { (w1, w2) } else { (w2, w1) };
+    let fire_at = rng.range(1, 12);
+    let witness = J::obj().with("first_terminal_width", first).with("second_terminal_width", second).with("switch_at_sync_point", fire_at);
+    let feats = vec!["wide_bar".to_string(), "retarget-race".to_string()];
+    let mut co = CaseOut::held(fnv1a(format!("{first}{second}{fire_at}").as_bytes()), true);
+    let spy_a = crate::spy::SpyTerm::new(first, 10, false);
+    let spy_b = crate::spy::SpyTerm::new(second, 10, false);
+    for s in [&spy_a, &spy_b] {
+        s.enable_log();
+        s.state().snap_on_flush = false;
+    }
+    let armed = Arc::new(AtomicBool::new(false));
+    let points = Arc::new(AtomicU64::new(0));
+    let done = Arc::new(AtomicBool::new(false));
+    let (tx, rx) = mpsc::channel::<()>();
+    let tx = std::sync::Mutex::new(Some(tx));
+    let (a2, p2, d2) = (armed.clone(), points.clone(), done.clone());
+    let session = vh::Session::new(
+        None,
+        false,
+        Some(Box::new(move |p: &vh::DelayPoint| {
+            if p.thread != 0 || !a2.load(SeqCst) || !matches!(p.kind, vh::DelayKind::AfterRelease | vh::DelayKind::BeforeRequest) {
+                return;
+            }
+            if p2.fetch_add(1, SeqCst) + 1 == fire_at {
+                if let Some(tx) = tx.lock().unwrap().take() {
+                    let _ = tx.send(());
+                    // give the other thread a moment to complete the switch (it cannot while we hold the state)
+                    let t0 = std::time::Instant::now();
+                    while !d2.load(SeqCst) && t0.elapsed().as_micros() < 3_000 {
+                        std::thread::yield_now();
+                    }
+                }
+            }
+        })),
+    );
+    vh::install(Some(session));
+    let res = catch_unwind(AssertUnwindSafe(|| {
+        let mp = indicatif::MultiProgress::with_draw_target(indicatif::ProgressDrawTarget::term_like(spy_a.boxed()));
+        let pb = mp.add(indicatif::ProgressBar::with_draw_target(Some(10), indicatif::ProgressDrawTarget::hidden()).with_style(ProgressStyle::with_template("{wide_bar} {pos}/{len}").unwrap().progress_chars("#>-")));
+        pb.set_position(5);
+        let mp2 = mp.clone();
+        let tb = spy_b.boxed();
+        let dd = done.clone();
+        let helper = std::thread::spawn(move || {
+            if rx.recv().is_ok() {
+                mp2.set_draw_target(indicatif::ProgressDrawTarget::term_like(tb));
+                dd.store(true, SeqCst);
+            }
+        });
+        armed.store(true, SeqCst);
+        pb.tick();
+        armed.store(false, SeqCst);
+        // (if the switch point was never reached the helper is released by dropping the session's sender)
+        vh::install(None);
+        if !done.load(SeqCst) {
+            // not reached inside the draw: nothing was injected
+            drop(helper);
+            return None;
+        }
+        let _ = helper.join();
+        pb.tick();
+        pb.abandon();
+        Some(())
+    }));
+    vh::install(None);
+    match res {
+        Err(p) => co.verdict = viol("panic", feats, format!("panicked: {}", crate::world::panic_message(&p)), witness, replay),
+        Ok(None) => co.nontrivial = false,
+        Ok(Some(())) => {
+            for (spy, width, name) in [(&spy_a, first as usize, "first"), (&spy_b, second as usize, "second")] {
+                let st = spy.state();
+                let Some(log) = &st.log else { continue };
+                for c in log.iter().filter(|c| c.kind == crate::spy::CallKind::WriteStr) {
+                    let t = c.text.clone().unwrap_or_default();
+                    if t.contains('#') || t.contains('-') {
+                        let cols = cols_of(&t);
+                        if cols != width {
+                            co.verdict = viol(
+                                "wide-bar-overflows-terminal",
+                                feats.clone(),
+                                format!("the {name} terminal ({width} columns) received a bar line of {cols} columns while the MultiProgress was being switched from a {first}- to a {second}-column terminal: {t:?}"),
+                                witness.clone(),
+                                replay.clone(),
+                            );
+                        }
+                    }
+                }
+            }
+            co.count("retarget_races_injected", 1);
+        }
+    }
+    co
+}
+
 pub fn run(cfg: &RunCfg) -> PropResult {
     console::set_colors_enabled(false);
     let sets: Vec<usize> = if cfg.thorough { (0..CHARSETS.len()).collect() } else { vec![1, 4, 11] };
@@ -350,7 +457,7 @@ pub fn run(cfg: &RunCfg) -> PropResult {
             let mut it = case[1..].split(':');
             let seed: u64 = it.next().and_then(|s| s.parse().ok()).unwrap_or(cfg.seed);
             let idx: u64 = it.next().and_then(|s| s.parse().ok()).unwrap_or(0);
-            r.add(idx, if wide { wide_case(seed, idx) } else { sampled_case(seed, idx) });
+            r.add(idx, if case.starts_with('r') { retarget_race_case(seed, idx) } else if wide { wide_case(seed, idx) } else { sampled_case(seed, idx) });
         }
         r
     } else {
@@ -364,6 +471,8 @@ pub fn run(cfg: &RunCfg) -> PropResult {
         r.merge(crate::report::run_parallel_tagged('s', ns, workers(), |i| sampled_case(cfg.seed, i)));
         let nw = if cfg.thorough { 500_000 } else { 10_000 };
         r.merge(crate::report::run_parallel_tagged('w', nw, workers(), |i| wide_case(cfg.seed, i)));
+        let nr = if cfg.thorough { 60_000 } else { 1_500 };
+        r.merge(crate::report::run_parallel_tagged('r', nr, workers(), |i| retarget_race_case(cfg.seed, i)));
         r.extra.insert("exhaustive_slice".into(), J::from(format!("bar widths 0..=64 x lengths 0..=64 x positions 0..=len+1 x {} character sets", sets.len())));
         r
     };
